@@ -66,11 +66,12 @@ type recDB struct {
 	removed [][]byte // keys removed since last drain
 	puts    [][]byte
 
-	g *gate
+	g   *gate
+	ids *vtrace.Interner // hashes are interned in write order, so that ids do not depend on map iteration
 }
 
-func newRecDB(g *gate) *recDB {
-	return &recDB{inner: memorydb.New(), archive: map[string][]byte{}, present: map[string]struct{}{}, g: g}
+func newRecDB(g *gate, ids *vtrace.Interner) *recDB {
+	return &recDB{inner: memorydb.New(), archive: map[string][]byte{}, present: map[string]struct{}{}, g: g, ids: ids}
 }
 
 func (d *recDB) Put(key, val []byte) error {
@@ -147,11 +148,11 @@ func (a archiveView) IsInterfaceNil() bool  { return false }
 // roView reads any DBWriteCacher without writing to it (snapshot DBs)
 type roView struct{ db data.DBWriteCacher }
 
-func (a roView) Put(_, _ []byte) error              { return nil }
-func (a roView) Get(key []byte) ([]byte, error)     { return a.db.Get(key) }
-func (a roView) Remove(_ []byte) error              { return nil }
-func (a roView) Close() error                       { return nil }
-func (a roView) IsInterfaceNil() bool               { return false }
+func (a roView) Put(_, _ []byte) error          { return nil }
+func (a roView) Get(key []byte) ([]byte, error) { return a.db.Get(key) }
+func (a roView) Remove(_ []byte) error          { return nil }
+func (a roView) Close() error                   { return nil }
+func (a roView) IsInterfaceNil() bool           { return false }
 func newReader(db data.DBWriteCacher) (data.Trie, error) {
 	tsm, err := trie.NewTrieStorageManagerWithoutPruning(db)
 	if err != nil {
@@ -272,10 +273,10 @@ type holderRec struct {
 }
 
 func (h *holderRec) Put(r []byte, hs data.ModifiedHashes) bool { return h.inner.Put(r, hs) }
-func (h *holderRec) RemoveCommitted(r []byte)                   { h.inner.RemoveCommitted(r) }
-func (h *holderRec) Remove(hash []byte)                         { h.inner.Remove(hash) }
-func (h *holderRec) ShouldCommit(hash []byte) bool              { return h.inner.ShouldCommit(hash) }
-func (h *holderRec) IsInterfaceNil() bool                       { return h == nil }
+func (h *holderRec) RemoveCommitted(r []byte)                  { h.inner.RemoveCommitted(r) }
+func (h *holderRec) Remove(hash []byte)                        { h.inner.Remove(hash) }
+func (h *holderRec) ShouldCommit(hash []byte) bool             { return h.inner.ShouldCommit(hash) }
+func (h *holderRec) IsInterfaceNil() bool                      { return h == nil }
 
 // cfg is the configuration of one stack (chosen by the driver / by the TLC behaviour's New record)
 type cfg struct {
@@ -302,7 +303,7 @@ type stack struct {
 
 func newStack(c cfg, scratch string) (*stack, error) {
 	s := &stack{c: c, g: newGate(), ids: vtrace.NewInterner()}
-	s.db = newRecDB(s.g)
+	s.db = newRecDB(s.g, s.ids)
 	holder := &holderRec{inner: hashesHolder.NewCheckpointHashesHolder(uint64(c.HolderMax), uint64(hasher.Size()))}
 	args := trie.NewTrieStorageManagerArgs{
 		DB:          s.db,
@@ -346,10 +347,16 @@ func newStack(c cfg, scratch string) (*stack, error) {
 	return s, nil
 }
 
-func (s *stack) close() { _ = s.adb.Close() }
+func (s *stack) close() {
+	_ = s.adb.Close()
+	_ = s.tsm.Close()
+}
 
 func (s *stack) id(h []byte) int { return s.ids.ID(h) }
 func (s *stack) idset(hs [][]byte) []int {
+	// intern in hash order: the ids must not depend on map iteration order (of this harness or of the code under test)
+	hs = append([][]byte(nil), hs...)
+	sort.Slice(hs, func(i, j int) bool { return bytes.Compare(hs[i], hs[j]) < 0 })
 	r := make([]int, 0, len(hs))
 	seen := map[int]bool{}
 	for _, h := range hs {
